@@ -1079,3 +1079,44 @@ def _callable_class(ctx, name: str) -> bool:
 def _typeof_object_tests_in(f: Func):
     own = {id(x) for x in f.own_nodes()}
     return [t for t in _typeof_object_tests(f.node) if id(t[0]) in own]
+
+
+# ---- bind composes: a bound function bound again keeps its this and accumulates arguments ---------------
+def rule_bind_composes(ctx, rep, rid: str) -> None:
+    """A bound script function is represented by marker attributes on a function object (bound this, bound
+    arguments, the wrapped function).  f.bind(a).bind(b) must behave as f with this = a: either bind flattens
+    (reads the markers of the function it is applied to and wraps the ORIGINAL function), or the call path unwraps
+    every level (a loop).  One-level unwrapping with non-flattening bind runs the inner bound function as if it
+    were unbound, with the outer this."""
+    rep.rule(rid, "bind applied to a bound function composes: the bind native takes over the bound this/arguments of its operand and wraps the original function, or the call path unwraps all levels in a loop", floor=1)
+    binders = []
+    for f in ctx.tree.funcs:
+        for n in f.own_nodes():
+            if isinstance(n, ast.Assign) and any(isinstance(t, ast.Attribute) and t.attr == "_original_func" for t in n.targets):
+                binders.append((f, n))
+    if not binders:
+        raise AnalysisError("no function marks a bound function (assignment to ._original_func)")
+    unwrappers = []
+    for f in ctx.tree.funcs:
+        for n in f.own_nodes():
+            if isinstance(n, ast.Assign) and isinstance(n.value, ast.Attribute) and n.value.attr == "_original_func" and (f, None) not in unwrappers and not any(f is b for b, _ in binders):
+                in_loop = any(isinstance(p, ast.While) for p in _parents(n))
+                unwrappers.append((f, in_loop))
+    loop_unwrap = bool(unwrappers) and all(l for _, l in unwrappers)
+    for f, n in binders:
+        key = f"{f.qual}:bind-of-bound"
+        reads = {x.attr for x in f.own_nodes() if isinstance(x, ast.Attribute) and isinstance(x.ctx, ast.Load) and x.attr in ("_original_func", "_bound_this", "_bound_args")}
+        flattens = reads == {"_original_func", "_bound_this", "_bound_args"}
+        if flattens:
+            rep.ok(rid, key, {"how": "bind flattens (takes over this, arguments and the original function of a bound operand)"})
+        elif loop_unwrap:
+            rep.ok(rid, key, {"how": "the call path unwraps every level"})
+        else:
+            rep.bad(rid, key, f"{f.qual} wraps its operand as it is (no look at the operand's own bound this/arguments), and the call path ({', '.join(u.qual for u, _ in unwrappers) or 'none'}) unwraps one level only: f.bind(a, 1).bind(b, 2)(3) runs f with this = b and arguments (2, 3)", f"{f.module.rel}:{n.lineno}")
+
+
+def _parents(n):
+    p = getattr(n, "_parent", None)
+    while p is not None:
+        yield p
+        p = getattr(p, "_parent", None)
